@@ -185,14 +185,15 @@ def oracle(item, d, claims, classes, ctx):
             add('C18', 'every concurrent call returns the function\'s value for its own arguments', simp(r['ret'] == want) if not isinstance(r['ret'], Agg) else True)
             add('C03', 'a concurrent call runs the body at most once', len(r['execs']) <= 1)
         # a call that starts after ANY call with the same arguments has executed, stored and returned is served from the cache
-        if not (it['result'] or it['invalidate_on'] or it['cache_if'] or it['ttl'] or it['max_memory']):
+        random_limit = it['limit'] is not None and it['policy'] == 'Random'      # an arbitrary victim may be the entry just stored
+        if not (it['result'] or it['invalidate_on'] or it['cache_if'] or it['ttl'] or it['max_memory'] or random_limit):
             allcalls = [r2 for rs2 in d['rs'] for r2 in rs2 if r2['op'] == 'call']
             for r in rs:
                 if r['op'] != 'call': continue
                 if any(r2 is not r and r2['args'] is r['args'] and r2['t_end'] <= r['t_start'] for r2 in allcalls):
                     add('C03', 'once any call that stored the result has returned, a call that starts later with the same arguments never runs the body', len(r['execs']) == 0)
         # a call that starts after a call of the same thread with the same arguments has stored and returned is served from the cache
-        if not (it['result'] or it['invalidate_on'] or it['cache_if'] or it['ttl'] or it['max_memory']):
+        if not (it['result'] or it['invalidate_on'] or it['cache_if'] or it['ttl'] or it['max_memory'] or random_limit):
             seen = []
             for r in rs:
                 if r['op'] != 'call': continue
